@@ -202,7 +202,7 @@ func checkC09(c CaseC09, info *Info) *Failure {
 		return nil
 	}
 	defer resetOptions()
-	mxj.SetAttrPrefix(c.Prefix)
+	setAttrPrefixBy(c.Prefix, c.DotViaToggle)
 	if c.DotViaToggle {
 		// the documented argument-less form: "toggles the flag" - from the opposite value
 		mxj.LeafUseDotNotation(!c.Dot)
